@@ -56,7 +56,7 @@ Next == Step( \/ \E s \in SeqsUpTo(Opts, MaxFull) : vec' = Ev(s, "full")
               \/ \E s \in UNION { [1..k -> Kinds] : k \in (MaxFull + 1)..MaxKindsOnly } :
                     vec' = Ev([ i \in DOMAIN s |-> <<s[i], i % 3 = 0>> ], "kinds")
               \/ \E t \in Times, u \in Times : vec' = TimeEv(t, u)
-              \/ \E ty \in {"application/vnd.oci.empty.v1+json", "application/org.other.v1.artifact"} :
+              \/ \E ty \in {"application/vnd.oci.empty.v1+json", "application/org.other.v1.artifact", ""} :      \* "" = a plain OCI image: no artifactType at all
                     vec' = [ev |-> "artifact", in |-> [dir |-> Dir, name |-> "foreign", foreign |-> TRUE, artifact_type |-> ty, layers |-> <<>>]] )
 Emit == phase = 1 => PrintT("VEC " \o ToJson(vec))
 =============================================================================
